@@ -10,6 +10,7 @@ CONSTANTS
   Universes <- AllUniverses
   SLen = 2
   Garbage <- None
+  WithInv = FALSE
   BugDeliverTwice = FALSE
   BugRelaySenderOnly = FALSE
   BugTruncate = FALSE
